@@ -2,6 +2,7 @@
 
 R-TABLE-FIDELITY  reading layer fields 3 (keys) / 4 (values) appends exactly one table entry on every path
                   (tags of untouched features stay encoded as table positions, duplicates are legal in MVT).
+R-JOIN            the per-feature decision (keep / merge / replace / drop) evaluated for all valuations of id, row, replace, remove.
 R-NAMED-LAYER     the only mutation of a layer in the update runner is dominated by `layer.name == args.layer_name`.
 R-FEATURE-WRITE   id / geom_type / geom_data of a feature are written only by decoding or construction; the property
                   rewrite touches only tag_ids and keeps the relative order of retained features.
@@ -74,6 +75,7 @@ def rules(ck, P):
             return "vector_tile::tile::VectorTile" in t_ or (e.get("k") == "field" and e.get("name") == "layers")
         tmut = [n["name"] for n in ir.walk_nodes(b["body"]) if n.get("k") == "mcall" and is_tile_or_layers(n["recv"]) and n["recv"].get("ta", "").startswith("&mut") and n["name"] not in ("iter_mut",)]
         ck.check(not tmut, "R-NAMED-LAYER", b["q"] + "|tile", "the layer list itself is not modified", "layer list modified by %s" % tmut, ir.loc(b))
+        _join_table(ck, b)
         # E-COMP
         dc = comp.calls_to(b, "compression::decompress")
         okc = len(dc) == 1 and ir.place_str(dc[0]["a"][1]).endswith("self.tile_compression")
@@ -106,6 +108,110 @@ def rules(ck, P):
                     if i1 is not None and i2 is not None and i1 != i2:
                         order_ok = i1 < i2
             ck.check(order_ok, "E-COMP", b["q"] + "|order", "the source compression is captured before the declared compression is overwritten", "declared compression is overwritten before the runner captures the source's", ir.loc(b))
+
+
+def _join_table(ck, b):
+    """The per-feature decision of the update stage, evaluated for all 16 valuations of
+    (feature has the id field, data file has a row for it, replace_properties, remove_non_matching):
+        no id field            -> kept unchanged
+        id, row,   replace     -> replaced by the row          id, row,   merge -> updated with the row
+        id, no row, remove     -> dropped                      id, no row, keep -> kept unchanged"""
+    fm = [n for n in ir.walk_nodes(b["body"]) if n.get("k") == "mcall" and (n.get("q") or "").endswith("VectorTileLayer::filter_map_properties") and n["a"] and n["a"][0].get("k") == "closure"]
+    if not ck.anchor("R-JOIN", "filter_map_properties closure", fm, 1):
+        return
+    clo = fm[0]["a"][0]
+    pp = [x for p_ in clo["params"] for x in ir.pat_binds(p_)]
+    ph = pp[0]["hid"] if pp else None
+
+    def cond_kind(e):
+        """which input a condition tests"""
+        for y in ir.walk_nodes(e):
+            if y.get("k") == "mcall" and y.get("name") == "get":
+                if ir.local_hid(y["recv"]) == ph:
+                    return "id"
+                if ir.contains(y["recv"], lambda z: z.get("k") == "field" and z.get("name") == "properties_map"):
+                    return "row"
+            if y.get("k") == "field" and y.get("name") == "replace_properties":
+                return "replace"
+            if y.get("k") == "field" and y.get("name") == "remove_non_matching":
+                return "remove"
+        return None
+
+    class Ret(Exception):
+        def __init__(self, v):
+            self.v = v
+
+    LOGGING = ("warn!(", "log::warn!(", "trace!(", "debug!(", "info!(", "error!(", "log::trace!(", "log::debug!(", "log::info!(", "log::error!(", "eprintln!(", "println!(")
+
+    def run(n, env, st):
+        k = n.get("k")
+        if (n.get("src") or "").lstrip().startswith(LOGGING):
+            return None      # logging has no effect on the decision
+        if k == "block":
+            for x in n.get("stmts", ()):
+                run(x, env, st)
+            if "tail" in n:
+                return run(n["tail"], env, st)
+            return None
+        if k == "semi":
+            return run(n["e"], env, st)
+        if k == "if":
+            c = ir.unparen(n["c"])
+            neg = False
+            while c.get("k") == "un" and c.get("op") == "!":
+                c, neg = ir.unparen(c["e"]), not neg
+            ck_ = cond_kind(c["init"] if c.get("k") == "letx" else c)
+            if ck_ is None:
+                raise Ret(("unknown-condition", ir.loc(n)))
+            truth = env[ck_] != neg
+            if c.get("k") == "letx" and not (c["pat"].get("q") or "").endswith("Some::{Ctor#0}"):
+                truth = not truth
+            if truth:
+                return run(n["then"], env, st)
+            if "else" in n:
+                return run(n["else"], env, st)
+            return None
+        if k == "ret":
+            e = ir.unparen(n["e"]) if "e" in n else None
+            raise Ret(("dropped",) if e is not None and (e.get("q") or "").endswith("None::{Ctor#0}") else ("returned-other",))
+        if k == "assign" and ir.local_hid(n["l"]) == ph:
+            st["state"] = "replaced" if ir.contains(n["r"], lambda y: y.get("k") == "mcall" and y.get("name") in ("clone", "to_owned")) else "assigned-other"
+            return None
+        if k == "mcall" and ir.local_hid(n["recv"]) == ph and n.get("name") == "update":
+            st["state"] = "merged" if st["state"] == "unchanged" else st["state"] + "+merged"
+            return None
+        if k == "call" and (n.get("q") or "").endswith("Some::{Ctor#0}") and n.get("a") and ir.local_hid(n["a"][0]) == ph:
+            return ("kept", st["state"])
+        if k == "call" and (n.get("q") or "").endswith("None::{Ctor#0}"):
+            return ("dropped",)
+        if k == "path" and (n.get("q") or "").endswith("None::{Ctor#0}"):
+            return ("dropped",)
+        if k in ("match", "for", "while", "loop"):
+            raise Ret(("unsupported-control-flow", ir.loc(n)))
+        return None
+    bad = []
+    n_val = 0
+    for idp in (False, True):
+        for row in (False, True):
+            for rep in (False, True):
+                for rem in (False, True):
+                    n_val += 1
+                    env = {"id": idp, "row": row, "replace": rep, "remove": rem}
+                    st = {"state": "unchanged"}
+                    try:
+                        res = run(clo["body"], env, st)
+                    except Ret as r:
+                        res = r.v
+                    if not idp:
+                        want = ("kept", "unchanged")
+                    elif row:
+                        want = ("kept", "replaced" if rep else "merged")
+                    else:
+                        want = ("dropped",) if rem else ("kept", "unchanged")
+                    if res != want:
+                        bad.append("id=%s row=%s replace=%s remove=%s: %s, expected %s" % (idp, row, rep, rem, res, want))
+    ck.check(not bad, "R-JOIN", b["q"] + "|decision", "the join decision is the documented table for all %d valuations (id present, row found, replace, remove)" % n_val,
+             "the per-feature join decision differs from the documented one: %s" % bad[:3], ir.loc(clo))
 
 
 def mutants(P):
